@@ -36,6 +36,7 @@ Simplifications (documented, not hidden):
  * `crossings : Vec<Crossing>` is only read through `dim()` (number of unresolved crossings): the model stores `dim`.
  * `ht` of a complex lives in the `EdgeOps` record; `connect_init`'s `assert_eq!(self.ht(), other.ht())` is therefore
    not modelled (the run always connects complexes with the same parameters).
+ * coefficient rings: `Int` (`i64`/`BigInt`), core `Rat` (`Ratio<i64>`), `F2` (`FF2`), `F3` (`FF<3>`) as `CoefU` instances.
  * machine-integer overflow (`i64` coefficients, `isize` degrees, `BitSeq` length 64) is not modelled.
 -/
 namespace Yuiv.C05.Engine
@@ -51,6 +52,49 @@ class CoefU (R : Type) extends Coef R where
 /-- `i64` / `BigInt`: the units are `±1`, each its own inverse -/
 instance : CoefU Int where
   inv? a := if a == 1 || a == -1 then some a else none
+
+/-- `Ratio<i64>`: core `Rat` (always reduced, positive denominator — what `Ratio::new` / `reduce` produce);
+every non-zero element is a unit -/
+instance : CoefU Rat where
+  zero := 0
+  one := 1
+  add a b := a + b
+  mul a b := a * b
+  neg a := -a
+  isZero a := a == 0
+  isOne a := a == 1
+  inv? a := if a == 0 then none else some a⁻¹
+
+/-- `FF2(bool)` -/
+structure F2 where
+  v : Bool
+deriving DecidableEq, Repr, Inhabited
+
+instance : CoefU F2 where
+  zero := ⟨false⟩
+  one := ⟨true⟩
+  add a b := ⟨a.v != b.v⟩
+  mul a b := ⟨a.v && b.v⟩
+  neg a := a
+  isZero a := !a.v
+  isOne a := a.v
+  inv? a := if a.v then some a else none
+
+/-- `FF<3>`: the representative in `0..3` -/
+structure F3 where
+  v : Nat
+deriving DecidableEq, Repr, Inhabited
+
+instance : CoefU F3 where
+  zero := ⟨0⟩
+  one := ⟨1⟩
+  add a b := ⟨(a.v + b.v) % 3⟩
+  mul a b := ⟨(a.v * b.v) % 3⟩
+  neg a := ⟨(3 - a.v % 3) % 3⟩
+  isZero a := a.v % 3 == 0
+  isOne a := a.v % 3 == 1
+  -- 1·1 = 1, 2·2 = 4 = 1
+  inv? a := if a.v % 3 == 0 then none else some ⟨a.v % 3⟩
 
 /-! ### `LcCob<R>` = `Lc<Cob, R>` -/
 
@@ -690,18 +734,17 @@ end inst
 
 /-! ### from a completely delooped complex to chain groups and matrices (`into_raw_complex`) -/
 
-structure ChainData where
+structure ChainData (S : Type) where
   /-- least homological degree = `deg_shift.0` -/
   imin : Int
   /-- generators of degree `imin + p`: key and quantum degree -/
   gens : List (List (TKey × Int))
   /-- differential out of degree `imin + p`: (source key, target key, coefficient ≠ 0) -/
-  d : List (List (TKey × TKey × Int))
-deriving Inhabited
+  d : List (List (TKey × TKey × S))
 
 /-- `into_raw_complex`: `assert!(is_completely_delooped())`; summands over `h_range()` from `keys_of(i)`;
 `d(x) = Σ (l, f.eval(h, t))` over the out-edges.  `evalE` = `LcCob::eval` (may panic). -/
-def Cx.toChain {E : Type} (evalE : E → Res Int) (cx : Cx E) : Res ChainData :=
+def Cx.toChain {E S : Type} (evalE : E → Res S) (isZ : S → Bool) (cx : Cx E) : Res (ChainData S) :=
   if !cx.isCompletelyDelooped then .panic
   else
     let gens := cx.hRange.map (fun i => (cx.keysOf i).map (fun k => (k, cx.dq + k.qRel)))
@@ -711,7 +754,7 @@ def Cx.toChain {E : Type} (evalE : E → Res Int) (cx : Cx E) : Res ChainData :=
           | .ok v => .ok (e.1.1, e.1.2, v)
           | .panic => .panic
           | .err => .err) (cx.edges.filter (fun e => (e.1.1.weight : Int) + cx.dh == i))) cx.hRange with
-    | .ok ds => .ok ⟨cx.dh, gens, ds.map (fun l => l.filter (fun x => x.2.2 != 0))⟩
+    | .ok ds => .ok ⟨cx.dh, gens, ds.map (fun l => l.filter (fun x => !isZ x.2.2))⟩
     | .panic => .panic
     | .err => .err
 
